@@ -5,8 +5,10 @@
 //! completed portion for the caller.
 
 use super::{Scheduler, executor::build_evm, ordered_commit::CommittedPrefixEnd};
+#[cfg(test)]
+use crate::InvalidTransaction;
 use crate::{
-    GrevmError, InvalidTransaction, TxExecutionOutcome, TxId,
+    GrevmError, TxExecutionOutcome, TxId,
     beneficiary::BeneficiaryMode,
     delegated_safety::{GrevmHandler, ReserveMode},
 };
@@ -86,7 +88,6 @@ where
             // The planner describes the full block, so replay retains global TxIds rather than
             // rebasing future-cost lookups at `start`.
             self.execute_sequential_suffix(start, |txid, tx| {
-                reject_nonce_overflow(evm.db_mut(), self.cfg.disable_nonce_check, tx)?;
                 evm.ctx.set_tx(tx.clone());
                 let reserve_mode = ReserveMode::from_planner(txid, self.reserve_planner.as_deref());
                 let output =
@@ -145,22 +146,6 @@ where
         }
         SequentialReplayOutput { outcomes, error: None }
     }
-}
-
-fn reject_nonce_overflow<DB: DatabaseRef>(
-    db: &DB,
-    disable_nonce_check: bool,
-    tx: &TxEnv,
-) -> Result<(), EVMError<DB::Error>> {
-    // revm increments the sender nonce with saturating arithmetic. Detect MAX explicitly so
-    // sequential recovery preserves the protocol's nonce-overflow invalid classification.
-    if !disable_nonce_check &&
-        tx.nonce == u64::MAX &&
-        db.basic_ref(tx.caller)?.map_or(0, |info| info.nonce) == u64::MAX
-    {
-        return Err(InvalidTransaction::NonceOverflowInTransaction.into());
-    }
-    Ok(())
 }
 
 #[cfg(test)]
